@@ -246,6 +246,11 @@ impl Prop for AddSub {
                     }
                     _ => unreachable!(),
                 };
+                if (c.a.ns ^ c.a.day) % 4 == 0 {
+                    if let Err(why) = canonical_dt(&r) {
+                        panic!("non-canonical result: {}", why);
+                    }
+                }
                 (rd_dt(&r), Some(r.get_offset()))
             })
         };
